@@ -43,8 +43,9 @@ Definition push (c : byte) (st : wstate) : wstate :=
 Definition digit_byte (d : Z) : byte := zb (d + 48).   (* byte(digit) + '0' *)
 
 (* fmtInt: [for v > 0 { w--; buf[w] = byte(v%10)+'0'; v /= 10 }].  A uint64 has
-   at most 20 decimal digits, so 20 rounds always reach v = 0
-   (DurP.fmt_int_loop_done); the fuel only makes the recursion structural. *)
+   at most 20 decimal digits, so 20 rounds always reach v = 0 (DurP.dec_loop_dval:
+   the digits written read back as v for every v < 10^20); the fuel only makes
+   the recursion structural. *)
 Fixpoint fmt_int_loop (fuel : nat) (v : Z) (st : wstate) : wstate :=
   match fuel with
   | O => st
@@ -257,7 +258,8 @@ Section Parser.
     end.
 
   (* the loop; [d] is the accumulated uint64.  Every round consumes at least
-     one byte, so [length s] rounds always suffice (DurP.parse_loop_no_fuel_out). *)
+     one byte, so [length s] rounds always suffice (DurP.parse_loop_fuel,
+     DurP.parse_no_fuel_out: OutOfFuel is never the result of parse_dur). *)
   Fixpoint parse_loop (fuel : nat) (s : bytes) (d : Z) : result Z :=
     match s with
     | [] => Ok d
